@@ -140,6 +140,9 @@ func init() {
 		Assumptions: []string{hookAssumption, "door names held in the map returned by DeviceList are not asserted to be insulated (the statement only promises that changing that map does not change where requests go)"},
 		Plan: func(tier string) []Batch {
 			b := same(n(tier, 8, 16), Batch{Timeout: 30 * time.Minute})
+			for _, z := range []string{"Pacific/Auckland", "America/New_York", "Asia/Kathmandu", "America/Santiago"}[:n(tier, 2, 4)] {
+				b = append(b, Batch{Env: []string{"TZ=" + z}, Timeout: 30 * time.Minute}) // zero dates, clones and snapshots in other process zones
+			}
 			return append(b, same(n(tier, 2, 4), Batch{Mode: "loopback", Timeout: 30 * time.Minute, Procs: 4})...)
 		}}
 }
